@@ -760,7 +760,11 @@ func JudgeC04(c *Case, res *Result) []Finding {
 }
 
 // outputWidth measures the returned line from its own glyphs: sum of advances,
-// not counting (if not already zeroed) the most generous trailing discount.
+// not counting (if not already zeroed) the larger of the two readings of the
+// trailing discount: the end glyph of the logically last run when it has the
+// paragraph's direction, and the glyph that is visually last in paragraph
+// direction (by the line's own VisualIndex). Glyphs inside the line never get a
+// discount.
 func outputWidth(c *Case, li lineInfo) fixed.Int26_6 {
 	var total fixed.Int26_6
 	for _, r := range li.content {
@@ -768,15 +772,40 @@ func outputWidth(c *Case, li lineInfo) fixed.Int26_6 {
 			total += axisAdv(r.Direction, g)
 		}
 	}
+	if len(li.content) == 0 {
+		return total
+	}
+	para := c.paraDir()
 	var best fixed.Int26_6
-	for _, r := range li.content {
-		if len(r.Glyphs) == 0 {
-			continue
+	// reading A
+	last := li.content[len(li.content)-1]
+	if last.Direction == para && len(last.Glyphs) > 0 {
+		g := last.Glyphs[len(last.Glyphs)-1]
+		if last.Direction.Progression() != di.FromTopLeft {
+			g = last.Glyphs[0]
 		}
-		for _, g := range []shaping.Glyph{r.Glyphs[0], r.Glyphs[len(r.Glyphs)-1]} {
-			if d := endDiscount(r.Direction, g); d > best {
-				best = d
+		if d := endDiscount(last.Direction, g); d > best {
+			best = d
+		}
+	}
+	// reading B
+	vi := 0
+	for i, r := range li.content {
+		if para.Progression() == di.FromTopLeft {
+			if r.VisualIndex > li.content[vi].VisualIndex {
+				vi = i
 			}
+		} else if r.VisualIndex < li.content[vi].VisualIndex {
+			vi = i
+		}
+	}
+	if vr := li.content[vi]; len(vr.Glyphs) > 0 {
+		g := vr.Glyphs[len(vr.Glyphs)-1]
+		if para.Progression() != di.FromTopLeft {
+			g = vr.Glyphs[0]
+		}
+		if d := endDiscount(vr.Direction, g); d > best {
+			best = d
 		}
 	}
 	return total - best
